@@ -146,6 +146,9 @@ import string as _string_mod
 _SAFE_MODULES = {'re': _re_mod, 'string': _string_mod}
 
 
+_BUILTIN_CALLS = frozenset(('id', 'hash', 'repr', 'list', 'tuple', 'set', 'frozenset', 'callable', 'hasattr', 'ord', 'chr', 'bin', 'hex', 'oct', 'pow', 'print', 'iter', 'next'))
+
+
 class GenList(list):
     """the values a generator function yields, produced eagerly (the interpreted generators are finite): iterable, next()-able"""
 
@@ -652,6 +655,14 @@ def ev(n, env, funcs=None):
                 return target(*args, **kw_)
         if fname in env and callable(env[fname]):
             return env[fname](*args, **kw_)
+        if isinstance(f, ast.Name) and funcs and '__name__' in funcs and fname not in _BUILTIN_CALLS:
+            # a repository class (or another callable the harness resolves by name) used as a function: ObsTime(), Bbox(ll, ur) ...
+            try:
+                target = funcs['__name__'](fname)
+            except Unsupported:
+                target = None
+            if callable(target):
+                return target(*args, **kw_)
         if isinstance(f, ast.Name):
             # remaining builtins with their Python meaning on the interpreter's values
             if fname == 'id' and len(args) == 1:
